@@ -832,7 +832,37 @@ func (e *Engine) tid(t types.Type) int {
 	}
 	id := len(e.tids) + 1
 	e.tids[k] = id
+	if e.tidTypes == nil {
+		e.tidTypes = map[int]types.Type{}
+	}
+	e.tidTypes[id] = t
 	return id
+}
+
+// implAxioms states, for every concrete type that has a type id and every interface tested dynamically in the unit,
+// whether the type implements the interface (decided statically by go/types).
+func (e *Engine) implAxioms() {
+	for fn, it := range e.ifaceTypes {
+		iface, ok := types.Unalias(it).Underlying().(*types.Interface)
+		if !ok {
+			continue
+		}
+		for id, t := range e.tidTypes {
+			if _, isIface := types.Unalias(t).Underlying().(*types.Interface); isIface {
+				continue
+			}
+			k := fmt.Sprintf("implax:%s:%d", fn, id)
+			if e.declared[k] {
+				continue
+			}
+			e.declared[k] = true
+			if types.Implements(t, iface) {
+				e.axioms = append(e.axioms, sx(fn, fmt.Sprint(id)))
+			} else {
+				e.axioms = append(e.axioms, not(sx(fn, fmt.Sprint(id))))
+			}
+		}
+	}
 }
 
 func (e *Engine) box(v Value) string {
@@ -901,6 +931,10 @@ func (e *Engine) hasType(v Value, t types.Type) string {
 		}
 		fn := "impl_" + mangle(types.TypeString(t, nil))
 		e.declareFun(fn, []string{"Int"}, "Bool")
+		if e.ifaceTypes == nil {
+			e.ifaceTypes = map[string]types.Type{}
+		}
+		e.ifaceTypes[fn] = t
 		if !e.declared[fn+"!nil"] {
 			e.declared[fn+"!nil"] = true
 			e.axioms = append(e.axioms, not(sx(fn, "0")))
